@@ -79,7 +79,7 @@ pub fn main(args: &Args) -> i32 {
     // VRFYED
     {
         use ed25519_dalek::{Signer, SigningKey};
-        let count = if args.thorough { 400 } else { 80 };
+        let count = if args.thorough { 2000 } else { 80 };
         for i in 0..count {
             let mut seed = [0u8; 32];
             rng.fill(&mut seed);
@@ -113,7 +113,7 @@ pub fn main(args: &Args) -> i32 {
     {
         use secp256k1::{Message, Secp256k1, SecretKey};
         let secp = Secp256k1::new();
-        let count = if args.thorough { 400 } else { 80 };
+        let count = if args.thorough { 2000 } else { 80 };
         for i in 0..count {
             let mut skb = [0u8; 32];
             rng.fill(&mut skb);
@@ -146,7 +146,7 @@ pub fn main(args: &Args) -> i32 {
     // PEX: solution sets; the hash on the stack is filled in by the check phase, so the VM is run
     // there; here only the abstract solutions go to TLC
     {
-        let count = if args.thorough { 300 } else { 60 };
+        let count = if args.thorough { 1500 } else { 60 };
         for _ in 0..count {
             let k = rng.gen_range(1..4usize);
             let sols: Vec<Solution> = (0..k)
